@@ -1,5 +1,8 @@
 import TabulaModel.Util
 import TabulaModel.Model.Layout
+import TabulaModel.Model.LayoutOrder
+import TabulaModel.Model.LayoutText
+import TabulaModel.Model.LayoutApi
 /-!
 Line protocol of C09 (see harness/c09/c09.go).
 
@@ -13,6 +16,28 @@ Ops: `c09.dedupe F`, `c09.bands F`, `c09.lines tol F`, `c09.blines minw G`, `c09
 `c09.sep gaps F`, `c09.create gaps F`, `c09.validate G`, `c09.cols gaps F`, `c09.seg n bits`,
 `c09.bgroup G`, `c09.bmerge G/…` , `c09.blocks G`, `c09.etree H L P`, `c09.asm F`,
 `c09.preserve F`, `c09.bycol S`, `c09.joinpara S`.
+
+Second layer (Model/LayoutOrder.lean): `c09.stream F` (shouldPreserveStreamOrder), `c09.lineso tol F`
+(lines with the exact order inside each line), `c09.ro rtl tols COLS SPAN` (sections, their
+fragments and lines, in reading order; `tols` = `firstid/len:tol,…`), `c09.ropara counts bits`
+(GetParagraphs as a segmentation per section), `c09.playout P_P_…` (ParagraphLayout.GetText; a
+paragraph is a group list), `c09.bycolx rtl tols COLS SPAN` (extractByColumn as a function of the
+column layout), `c09.jpx rtl tols COLS SPAN tolAll bits` (extractWithParagraphs likewise; bits =
+paragraph starts over the lines of the reading order).
+
+Third layer (Model/LayoutText.lean): `c09.lltext tol F` (LineDetector.Detect(F).GetText()),
+`c09.rotext rtl tols COLS SPAN` (ReadingOrderResult.GetText), `c09.cltext COLS SPAN`
+(ColumnLayout.GetText), `c09.clfrags COLS SPAN` (GetFragmentsInReadingOrder), `c09.bltext B_B_…` (BlockLayout.GetText; a block is the group list of its
+lines), `c09.blinesx F` (BlockDetector.groupIntoLines where the sorts have one possible result),
+`c09.tgroup F` (text.groupFragments), `c09.gettext KR SP F` (text.Extractor.GetText; KR =
+`firstid/len:keep:rtl;…` per line, SP = `p.f,…` the pairs that get a blank).
+
+Fourth layer (Model/LayoutApi.lean): `c09.charlevel F`, `c09.multicol wz n ncols`,
+`c09.pagetext pl jp bc cl mc DPL DJP DBC DASM` (the dispatch of Text() on 8-byte digests of the
+four candidate texts), `c09.analyze rtl gaps tols tolAll bits F`
+((*Analyzer).Analyze: columns, reading order, lines, paragraphs), `c09.doctext T;T;…` (page
+texts joined), `c09.doccat name P;P;…` (per-page result lists appended; P = hex texts joined by `|`,
+`~` = none).
 -/
 namespace Tabula.C09H
 open Tabula Tabula.Layout
@@ -99,6 +124,160 @@ def parseSection (s : String) : Option (List (Str × Nat)) :=
     | [t, c] => do pure (← unhexS t, ← c.toNat?)
     | _ => none
 
+/-- `firstid/len:tol,…` -/
+def parseTols (s : String) : Option (List ((Nat × Nat) × Rat)) :=
+  if s == "-" then some []
+  else (s.splitOn ",").mapM fun e =>
+    match e.splitOn ":" with
+    | [k, t] =>
+      match k.splitOn "/" with
+      | [i, n] => do pure ((← i.toNat?, ← n.toNat?), ← parseRat t)
+      | _ => none
+    | _ => none
+
+def fragsKey (l : List Frag) : Nat × Nat := ((l.head?.map (·.id)).getD 0, l.length)
+
+def tolTable (t : List ((Nat × Nat) × Rat)) (d : Rat) (frs : List Frag) : Rat :=
+  (t.lookup (fragsKey frs)).getD d
+
+def secStr (s : Sec) : String :=
+  (if s.spanning then "S" else "C") ++ "[" ++ groupStr true s.frags ++ "]:" ++ partStr true s.lines
+
+def minLW : Rat := 5
+
+/-- the reading order of a column layout given on the op line -/
+def roOf (rtl : String) (tols cols span : String) (d : Rat) : Option (List Frag × ReadingOrder) := do
+  let t ← parseTols tols
+  let c ← parseGroups cols
+  let sp ← parseFrags span
+  let cl : ColumnLayout := ⟨c, sp⟩
+  pure (c.flatten ++ sp, readingOrderOf (tolTable t d) minLW preserveGo (rtl == "1") cl)
+
+/-- break decisions given as start bits over a list of lines -/
+def bitsBrk (lines : List (List Frag)) (bits : String) : List (List Frag) → List Frag → List (List Frag) → Bool :=
+  let tbl := (lines.map fragsKey).zip (bits.toList.map (· == '1'))
+  fun _ a _ => (tbl.lookup (fragsKey a)).getD false
+
+def handle2 (op : String) (args : List String) : String :=
+  match op, args with
+  | "c09.stream", [f] => match parseFrags f with
+    | some fs => if preserveGo fs then "1" else "0" | none => "bad-op"
+  | "c09.lineso", [t, f] => match parseRat t, parseFrags f with
+    | some tol, some fs => partStr false (groupIntoLines tol preserveGo fs) | _, _ => "bad-op"
+  | "c09.ro", [rtl, tols, cols, span] => match roOf rtl tols cols span 0 with
+    | some (_, ro) => if ro.sections.isEmpty then "-" else ";".intercalate (ro.sections.map secStr)
+    | none => "bad-op"
+  | "c09.ropara", [counts, bits] =>
+    match (if counts == "-" then some [] else (counts.splitOn ",").mapM (·.toNat?)) with
+    | some ns =>
+      let mkLine := fun (i : Nat) => [({ id := i, x := 0, y := 0, w := 0, h := 0, fs := 0, text := [] } : Frag)]
+      let step := fun (acc : Nat × List Sec) (n : Nat) =>
+        (acc.1 + n, acc.2 ++ [({ spanning := false, frags := [], lines := (List.range n).map fun k => mkLine (acc.1 + k) } : Sec)])
+      let ss := (ns.foldl step (0, [])).2
+      let ls := ss.flatMap (·.lines)
+      let ro : ReadingOrder := ⟨ss, [], ls, 0⟩
+      let ps := roParagraphs (fun _ => bitsBrk ls bits) ro
+      if ps.isEmpty then "-" else "|".intercalate (ps.map fun p => idList (p.map fun l => (l.head?.map (·.id)).getD 0))
+    | none => "bad-op"
+  | "c09.playout", [p] => match (p.splitOn "_").mapM parseGroups with
+    | some ps => hexS (paragraphLayoutText ps) | none => "bad-op"
+  | "c09.bycolx", [rtl, tols, cols, span] => match roOf rtl tols cols span 0 with
+    | some (fs, ro) => hexS (byColumnOf fs ro) | none => "bad-op"
+  | "c09.jpx", [rtl, tols, cols, span, tolAll, bits] => match parseRat tolAll with
+    | some d => match roOf rtl tols cols span d with
+      | some (fs, ro) =>
+        hexS (withParagraphsOf (fun lines => bitsBrk lines bits) (tolTable ((parseTols tols).getD []) d) minLW preserveGo fs ro)
+      | none => "bad-op"
+    | none => "bad-op"
+  | _, _ => "bad-op"
+
+def parseKR (s : String) : Option (List ((Nat × Nat) × (Bool × Bool))) :=
+  if s == "-" then some []
+  else (s.splitOn ";").mapM fun e =>
+    match e.splitOn ":" with
+    | [k, a, b] =>
+      match k.splitOn "/" with
+      | [i, n] => do pure ((← i.toNat?, ← n.toNat?), (a == "1", b == "1"))
+      | _ => none
+    | _ => none
+
+def parsePairs (s : String) : Option (List (Nat × Nat)) :=
+  if s == "-" then some []
+  else (s.splitOn ",").mapM fun e =>
+    match e.splitOn "." with
+    | [a, b] => do pure (← a.toNat?, ← b.toNat?)
+    | _ => none
+
+def handle3 (op : String) (args : List String) : String :=
+  match op, args with
+  | "c09.lltext", [t, f] => match parseRat t, parseFrags f with
+    | some tol, some fs => hexS (lineLayoutText (detectLines tol minLW preserveGo fs)) | _, _ => "bad-op"
+  | "c09.rotext", [rtl, tols, cols, span] => match roOf rtl tols cols span 0 with
+    | some (_, ro) => hexS (roText ro) | none => "bad-op"
+  | "c09.cltext", [cols, span] => match parseGroups cols, parseFrags span with
+    | some c, some sp => hexS (columnLayoutText preserveGo ⟨c, sp⟩) | _, _ => "bad-op"
+  | "c09.clfrags", [cols, span] => match parseGroups cols, parseFrags span with
+    | some c, some sp => idList ((columnLayoutFragments ⟨c, sp⟩).map (·.id)) | _, _ => "bad-op"
+  | "c09.bltext", [b] => match (b.splitOn "_").mapM parseGroups with
+    | some bs => hexS (blockLayoutText (bs.map mkBlock)) | none => "bad-op"
+  | "c09.blinesx", [f] => match parseFrags f with
+    | some fs => partStr false (blockLinesOf (stableSort blLess) (stableSort fun a b => a.x < b.x) fs)
+    | none => "bad-op"
+  | "c09.tgroup", [f] => match parseFrags f with
+    | some fs => partStr false (groupFragments fs) | none => "bad-op"
+  | "c09.gettext", [kr, sp, f] => match parseKR kr, parsePairs sp, parseFrags f with
+    | some t, some ps, some fs =>
+      let keepS := fun (l : List Frag) => ((t.lookup (fragsKey l)).map (·.1)).getD true
+      let rtlOf := fun (l : List Frag) => ((t.lookup (fragsKey l)).map (·.2)).getD false
+      let spaceOf := fun (_ : List Frag) (p q : Frag) => ps.contains (p.id, q.id)
+      hexS (textGetText keepS rtlOf spaceOf fs)
+    | _, _, _ => "bad-op"
+  | _, _ => "bad-op"
+
+def hexOpt (s : String) : Option Str := if s == "-" then some [] else unhexS s
+
+def handle4 (op : String) (args : List String) : String :=
+  match op, args with
+  | "c09.charlevel", [f] => match parseFrags f with
+    | some fs => if isCharacterLevel fs then "1" else "0" | none => "bad-op"
+  | "c09.multicol", [wz, n, k] => match n.toNat?, k.toNat? with
+    | some n, some k =>
+      let dummy : Frag := { id := 0, x := 0, y := 0, w := 0, h := 0, fs := 0, text := [] }
+      if detectMultiColumn (wz == "1") (List.replicate n dummy) k then "1" else "0"
+    | _, _ => "bad-op"
+  | "c09.pagetext", [pl, jp, bc, cl, mc, tpl, tjp, tbc, tasm] =>
+    match hexOpt tpl, hexOpt tjp, hexOpt tbc, hexOpt tasm with
+    | some a, some b, some c, some d =>
+      hexS (textDispatch ⟨pl == "1", jp == "1", bc == "1"⟩ (cl == "1") (mc == "1") a b c d)
+    | _, _, _, _ => "bad-op"
+  | "c09.analyze", [rtl, g, tols, tolAll, bits, f] =>
+    match parseGaps g, parseTols tols, parseRat tolAll, parseFrags f with
+    | some gaps, some t, some d, some fs =>
+      let minKey := fun (l : List Frag) => ((sortNat (l.map (·.id))).head?.getD 0, l.length)
+      let tolOf := fun (l : List Frag) => (t.lookup (minKey l)).getD d
+      let mkHz := fun (brkOf : List (List Frag) → List (List Frag) → List Frag → List (List Frag) → Bool) =>
+        Heur.mk gaps minCW minLW (isSpanGo gaps spanThr) keepSpanGo tolOf preserveGo (rtl == "1") brkOf (fun _ _ => (1, 1))
+      let hz0 := mkHz (fun _ _ _ _ => false)
+      let roLines := (hz0.readingOrder fs).lines
+      let tbl := (roLines.map minKey).zip (bits.toList.map (· == '1'))
+      let hz := mkHz (fun _ _ a _ => (tbl.lookup (minKey a)).getD false)
+      let bh := BlockHeur.mk id id id blockBreakGo blocksOverlapGo 10 5
+      let a := analyze hz bh fs
+      let secs := if a.readingOrder.sections.isEmpty then "-" else ";".intercalate (a.readingOrder.sections.map secStr)
+      let paras := if a.paragraphs.isEmpty then "-"
+        else "|".intercalate (a.paragraphs.map fun p => "+".intercalate (p.map (groupStr true)))
+      s!"C={partStr true a.columns.columns} S={groupStr true a.columns.spanning} RO={secs} L={partStr true a.lines} P={paras}"
+    | _, _, _, _ => "bad-op"
+  | "c09.doctext", [ts] => match (ts.splitOn ";").mapM hexOpt with
+    | some l => hexS (joinPages 0 [] l) | none => "bad-op"
+  | "c09.doccat", [_, ps] =>
+    match (ps.splitOn ";").mapM (fun p => if p == "~" then some [] else (p.splitOn "|").mapM hexOpt) with
+    | some l =>
+      let all := l.flatten
+      if all.isEmpty then "-" else "|".intercalate (all.map hexS)
+    | none => "bad-op"
+  | _, _ => "bad-op"
+
 def handle (op : String) (args : List String) : String :=
   match op, args with
   | "c09.dedupe", [f] => match parseFrags f with
@@ -160,6 +339,10 @@ def handle (op : String) (args : List String) : String :=
     | none => "bad-op"
   | "c09.joinpara", [s] => match parseTexts s with
     | some ps => hexS (joinParagraphsText ps) | none => "bad-op"
-  | _, _ => "bad-op"
+  | _, _ => match handle2 op args with
+    | "bad-op" => match handle3 op args with
+      | "bad-op" => handle4 op args
+      | r => r
+    | r => r
 
 end Tabula.C09H
